@@ -64,12 +64,14 @@ Inductive schema :=
 | SSlice (e : schema) | SArr (n : nat) (e : schema)   (* []T, [n]T for non-byte T *)
 | SMap (k v : schema)
 | SIface (alts : list (N * schema))                   (* interface with registered (code, type) alternatives *)
-| SByteArrO (ptr : bool) (n : nat) (code : option N) (key : string).
+| SByteArrO (ptr : bool) (n : nat) (code : option N) (key : string)
                                                       (* [n]byte whose registered type settings carry an object code
                                                          (written as the object {"type": code, key: hex}) and/or which
                                                          sits behind a pointer; [key] is the effective inner key: the
                                                          explicit tag key of the struct field holding a by-value array,
                                                          else the registered field key, else "data" *)
+| SBytesO (code : N) (key : string).                  (* []byte whose registered type settings carry an object code:
+                                                         object form as well; [key] as for SByteArrO *)
 
 Inductive value :=
 | VBool (b : bool) | VInt (z : Z) | VStr (s : string)
@@ -283,6 +285,7 @@ Fixpoint zero_of (s : schema) : value :=
   | SMap _ _ => VMap []
   | SByteArrO true _ _ _ => VNil
   | SByteArrO false n _ _ => VStr (fit n EmptyString)
+  | SBytesO _ _ => VStr EmptyString
   end.
 
 Section FieldsZero.
@@ -314,6 +317,7 @@ Fixpoint is_empty (s : schema) (v : value) {struct s} : bool :=
   | SMap _ _ => match v with VMap [] => true | _ => false end
   | SByteArrO true _ _ _ => is_nil v
   | SByteArrO false n _ _ => match v with VStr x => String.eqb x (fit n EmptyString) | _ => false end
+  | SBytesO _ _ => match v with VStr x => String.eqb x EmptyString | _ => false end
   end.
 
 (* field types on which the model value determines emptiness exactly *)
@@ -464,6 +468,11 @@ Fixpoint jencode (s : schema) (v : value) {struct s} : res json :=
         | _ => Err EType
         end in
       if ptr then match v with VNil => Err ENil | VPtr x => body x | _ => Err EType end else body v
+  | SBytesO code key =>
+      match v with
+      | VStr b => Ok (JObj [(key_type, JNum (Z.of_N code)); (key, JStr (encode_hex b))])
+      | _ => Err EType
+      end
   end.
 
 (* ---------- mapDecode ---------- *)
@@ -543,6 +552,16 @@ Fixpoint jdecode (fx : bool) (s : schema) (j : json) {struct s} : res value :=
         | JObj o => match code with Some _ => if fx then fromobj o else Panic | None => shape_err fx end
         | _ => shape_err fx
         end
+  | SBytesO code key =>                                (* mapDecodeSlice after c9f8064: bare hex string or the object form *)
+      match j with
+      | JStr x => let* b := decode_hex x in Ok (VStr b)
+      | JObj o => if fx then match jlookup key o with
+                             | Some (JStr x) => let* b := decode_hex x in Ok (VStr b)
+                             | _ => Err EShape
+                             end
+                  else Panic
+      | _ => shape_err fx
+      end
   end.
 
 (* ---------- JSONEncode / JSONDecode (top level) ---------- *)
@@ -608,6 +627,7 @@ Definition alt_code (s : schema) : option N :=
   match s with
   | SStruct _ (Some c) _ => Some c
   | SByteArrO _ _ (Some c) _ => Some c
+  | SBytesO c _ => Some c
   | _ => None
   end.
 
@@ -636,6 +656,7 @@ Fixpoint wf_schema (s : schema) : bool :=
       && code_nodup (map fst alts)
   | SByteArrO _ _ code key =>
       match code with Some c => (c <? 4294967296)%N && negb (String.eqb key key_type) | None => true end
+  | SBytesO c key => (c <? 4294967296)%N && negb (String.eqb key key_type)
   | _ => true
   end.
 
@@ -691,6 +712,7 @@ Fixpoint has_type (s : schema) (v : value) {struct s} : bool :=
   | SByteArrO ptr n _ _ =>
       let body (x : value) := match x with VStr b => Nat.eqb (String.length b) n | _ => false end in
       if ptr then match v with VPtr x => body x | _ => false end else body v
+  | SBytesO _ _ => match v with VStr _ => true | _ => false end
   end.
 
 (* ---------- decidable equalities for the correspondence ---------- *)
